@@ -57,6 +57,11 @@ pub struct Scenario {
 	/// instead of the Config::throttle method: consumers are documented to read just in time
 	#[serde(default)]
 	pub throttle_via_field: bool,
+	/// (period ms, count): the action handler creates `count` supervised jobs (never started: no processes) in
+	/// its first invocation, and a side task then ends one of them (delete_now + dropping the handle, so that
+	/// its task finishes) every `period` ms. Job tasks ending must not disturb the batch under construction.
+	#[serde(default)]
+	pub job_churn: Option<(u16, u8)>,
 }
 
 pub const EMPTY_ERR_ID: u32 = 0xEEEE_EEEE;
@@ -181,6 +186,8 @@ struct Shared {
 	errors: Mutex<Vec<ErrSeen>>,
 	action_gen: AtomicUsize,
 	err_calls: AtomicUsize,
+	churn_jobs: Mutex<Vec<watchexec_supervisor::job::Job>>,
+	churn_count: AtomicUsize,
 }
 
 fn us(t0: Instant) -> u64 {
@@ -242,6 +249,8 @@ pub fn run_with(sc: &Scenario, install: Option<&dyn Fn()>, side: Option<&Side>, 
 			errors: Mutex::new(Vec::new()),
 			action_gen: AtomicUsize::new(0),
 			err_calls: AtomicUsize::new(0),
+			churn_jobs: Mutex::new(Vec::new()),
+			churn_count: AtomicUsize::new(sc.job_churn.map_or(0, |c| usize::from(c.1))),
 		});
 		let mut verdicts = HashMap::new();
 		for (pi, p) in sc.producers.iter().enumerate() {
@@ -260,7 +269,19 @@ pub fn run_with(sc: &Scenario, install: Option<&dyn Fn()>, side: Option<&Side>, 
 		let config_slot: Arc<Mutex<Option<Arc<Config>>>> = Arc::new(Mutex::new(None));
 
 		// ---- action handler (generation g); may replace itself from inside
-		fn record_batch(shared: &Shared, action: &watchexec::action::ActionHandler, generation: u8) -> (usize, bool) {
+		fn record_batch(shared: &Shared, action: &mut watchexec::action::ActionHandler, generation: u8) -> (usize, bool) {
+			// job churn: the first invocation creates the jobs whose tasks a side task ends later
+			let n = shared.churn_count.swap(0, Ordering::SeqCst);
+			if n > 0 {
+				let cmd = Arc::new(watchexec_supervisor::command::Command {
+					program: watchexec_supervisor::command::Program::Exec { prog: "/bin/true".into(), args: vec![] },
+					options: Default::default(),
+				});
+				let mut jobs = shared.churn_jobs.lock().unwrap();
+				for _ in 0..n {
+					jobs.push(action.create_job(cmd.clone()).1);
+				}
+			}
 			let ids: Vec<Option<u32>> = action.events.iter().map(id_of).collect();
 			let quit = ids.contains(&Some(QUIT_ID));
 			let mut b = shared.batches.lock().unwrap();
@@ -293,7 +314,7 @@ pub fn run_with(sc: &Scenario, install: Option<&dyn Fn()>, side: Option<&Side>, 
 					let shared = shared2.clone();
 					let after = after.clone();
 					Box::new(async move {
-						let (idx, quit) = record_batch(&shared, &action, generation);
+						let (idx, quit) = record_batch(&shared, &mut action, generation);
 						if handler_ms > 0 {
 							tokio::time::sleep(Duration::from_millis(handler_ms)).await;
 						}
@@ -307,7 +328,7 @@ pub fn run_with(sc: &Scenario, install: Option<&dyn Fn()>, side: Option<&Side>, 
 			} else {
 				let shared2 = shared.clone();
 				config.on_action(move |mut action| {
-					let (idx, quit) = record_batch(&shared2, &action, generation);
+					let (idx, quit) = record_batch(&shared2, &mut action, generation);
 					if handler_ms > 0 {
 						std::thread::sleep(Duration::from_millis(handler_ms));
 					}
@@ -409,6 +430,22 @@ pub fn run_with(sc: &Scenario, install: Option<&dyn Fn()>, side: Option<&Side>, 
 				}
 			}));
 		}
+		let churn_task = sc.job_churn.map(|(period, count)| {
+			let shared = shared.clone();
+			tokio::spawn(async move {
+				let until = Instant::now() + Duration::from_secs(6);
+				let mut ended = 0;
+				while ended < usize::from(count) && Instant::now() < until {
+					tokio::time::sleep(Duration::from_millis(u64::from(period.max(1)))).await;
+					let job = shared.churn_jobs.lock().unwrap().pop();
+					if let Some(job) = job {
+						let _ = job.delete_now();
+						drop(job);
+						ended += 1;
+					}
+				}
+			})
+		});
 		let mut throttle_changed_us = None;
 		if let Some((at, to)) = sc.throttle_change {
 			tokio::time::sleep(Duration::from_millis(u64::from(at))).await;
@@ -423,6 +460,9 @@ pub fn run_with(sc: &Scenario, install: Option<&dyn Fn()>, side: Option<&Side>, 
 			let _ = p.await;
 		}
 		if let Some(t) = side_task {
+			let _ = t.await;
+		}
+		if let Some(t) = churn_task {
 			let _ = t.await;
 		}
 		// wait for quiescence (everything owed has been delivered) before requesting the quit
